@@ -14,6 +14,19 @@ def check(res):
     known = f["words"]["known_words"]["rows"]
     s = lexgen.gen_c11(res.tier, res.seed)
     st = run_script(res, s, known, "C11", in_scope)
+    # the same table with very many distinct main variants, requested in address order (the lookup tree gets as deep as it can)
+    import re
+    bulk_n = 300000 if res.tier == "quick" else 3000000
+    bexe = build_driver("c11_bulk_driver", "asan")
+    pb = run([bexe, str(bulk_n)], env=SAN_ENV, timeout=3600)
+    mb = re.search(r"bulk n=(\d+) bad_main=(\d+) bad_quals=(\d+) bad_identity=(\d+) bad_nesting=(\d+)", pb.stdout)
+    if pb.returncode != 0 or not mb:
+        res.violation("oracle:normal-form:bulk-crash", "requesting const-qualified versions of %d distinct types aborted" % bulk_n,
+                      {"stderr": pb.stderr[-3000:], "rerun": "build/<hash>/asan/c11_bulk_driver %d" % bulk_n})
+    elif any(int(x) for x in mb.groups()[1:]):
+        res.violation("oracle:normal-form:bulk", "among %s distinct main variants T requested in address order: %s results of get_qualified(const, T) have main_variant() != T, "
+                      "%s have other qualifiers, %s repeated requests gave another node, %s nested requests are not the merged node" % mb.groups(),
+                      {"observed": mb.group(0), "rerun": "build/<hash>/asan/c11_bulk_driver %d" % bulk_n})
     if not all(status.values()) and not [v for v in res.violations if v["key"].startswith("oracle:")]:
         res.violation("coq:Properties_C11.v", "proof obligation no longer checks",
                       {"theorem_file": "Properties_C11.v", "error": coq_error_excerpt(out, "Properties_C11.v")}, no_input=True)
@@ -23,7 +36,8 @@ def check(res):
         "rule": "for each unqualified base type (built-ins, client classes, pointer, reference, array, function) and each non-empty subset Q of "
                 "{const,volatile,restrict}: EVERY presentation of Q as 1..3 successive non-empty qualification requests whose union is Q "
                 "(orders, groupings, overlaps), with unrelated requests interleaved at random; after each chain main_variant(), qualifiers() "
-                "and the identity class are read; the empty set is requested on every base",
+                "and the identity class are read; the empty set is requested on every base; then %d distinct pointer types are const-qualified in address "
+                "order and main_variant(), qualifiers(), identity of a repeated request and the nesting rule are read back" % bulk_n,
         "exhaustive": True,
         "samples": [s.lines[i] for i in (len(s.lines) // 3, len(s.lines) // 3 + 1, len(s.lines) // 3 + 2)],
         "traces_validated_against_impl": st["n"],
